@@ -88,7 +88,7 @@ pub const N_KINDS: usize = 24;
 
 const PIECES_PLAIN: &[&str] = &["a", "bc", "Z", " ", "_", "0", "{", "}", "\"", "\\", "(", ",", ")", ".."];
 const PIECES_NL: &[&str] = &["\n", "\n", "x\ny", "\n\n", "end\n", "\nq", "    ", ",\n", "\r\n", "a\r\nb", "\u{2028}", "\u{85}", "\n\n\n", "\r"];
-const PIECES_MB: &[&str] = &["é", "漢", "😀", "ß", "\u{301}", "\u{200b}"];
+const PIECES_MB: &[&str] = &["é", "漢", "😀", "ß", "\u{301}", "\u{200b}", "\u{202e}", "e\u{301}\u{301}", "\u{fffd}"];
 pub const NAMES: &[&str] = &["", "T", "Foo", "type", "Ünï", "a b", "X1", "_", "r#x"];
 const FIELD_NAMES: &[&str] = &["a", "b", "type", "x_1", "ö", ""];
 
